@@ -169,6 +169,9 @@ func c19Run(h http.Handler, be *c19Backend, c c19Case) (fs []vrt.Finding, obs st
 	if out.Method != c.Method {
 		fs = append(fs, vrt.F("method-changed", "%s %s reached the backend as %s", c.Method, c.Target, out.Method)...)
 	}
+	if want := req.URL.EscapedPath(); outPath != want {
+		fs = append(fs, vrt.F("path-re-encoded", "%s %s reached the backend with the path %s: the client sent %s (one level of percent-encoding was removed or added on the way)", c.Method, c.Target, outPath, want)...)
+	}
 	if !strings.HasPrefix(norm, "/linkip/") && !strings.HasPrefix(norm, "/ddns/") {
 		fs = append(fs, vrt.F("path-escapes-prefix", "%s %s reached the backend as %s, which normalises to %s outside /linkip/ and /ddns/", c.Method, c.Target, outPath, norm)...)
 	}
@@ -212,7 +215,7 @@ func TestVerifC19(t *testing.T) {
 	}
 
 	methods := []string{"GET", "POST", "HEAD", "PUT", "DELETE", "OPTIONS"}
-	tokens := []string{"linkip", "ddns", "x", "status", "", ".", "..", "%2e%2e", "a%2Fb"}
+	tokens := []string{"linkip", "ddns", "x", "status", "", ".", "..", "%2e%2e", "a%2Fb", "%252e%252e"}
 	allForged := []string{
 		"X-Connecting-IP: " + c19Forged,
 		"X-Forwarded-For: " + c19Forged,
